@@ -1088,6 +1088,63 @@ def prog_multi(seed: int, n_ops: int = 8, *, three: float = 0.3, prefs: float = 
     return g
 
 
+def prog_shortcuts(seed: int) -> G:
+    """The short-cuts keyed on static metadata (C06): chains with statically empty / join-identity / zero-column
+    operands, joins with a join identity, empty-result short-circuits - in one engine and across engines, built,
+    processed by a real Processor and executed.  Only default options (no preferred engine), no nested chains."""
+    g = G(seed, max_rows=4)
+    rng = g.rng
+    g.engine("e0", "sql")
+    g.engine("e1", "iter")
+    g.engine("e2", "iter")
+    observed: list[str] = []
+    for _ in range(rng.choice([1, 2])):
+        eng = rng.choice(["e1", "e1", "e2", "e0"])
+        base = g.leaf(eng, cols=sorted(rng.sample(["a", "b", "d"], rng.choice([1, 2]))), nrows=rng.choice([1, 2, 3, 4]))
+        sc = rng.random()
+        if sc < 0.45:
+            # a zero-column relation (n rows, or 1 after deduplication) chained with a join identity / itself
+            z = g.apply(base, ["proj"], frozenset())
+            if rng.random() < 0.4:
+                z = g.apply(z, ["dedup"], frozenset())
+            if rng.random() < 0.3:
+                z = g.apply(z, ["sel", ["plit", "T"]], frozenset())
+            other = g.joinid(eng) if rng.random() < 0.7 else g.apply(base, ["proj"], frozenset())
+            ch = g.chain(z, other) if rng.random() < 0.5 else g.chain(other, z)
+            cur = ch
+        elif sc < 0.75:
+            # a statically empty branch next to a real one
+            d = g.doomed(eng, cols=sorted(g.cols[base]))
+            x = base
+            if rng.random() < 0.5:
+                op, nc = g.rand_op(g.cols[base], allow=("sel", "dedup", "sort"))
+                x = g.apply(base, op, nc)
+            cur = g.chain(d, x) if rng.random() < 0.5 else g.chain(x, d)
+        else:
+            # a join with a join identity (elided), with and without a predicate
+            j = g.joinid(eng)
+            pred = g.pred(g.cols[base], 1) if rng.random() < 0.4 else None
+            cur = g.join(base, j, pred) if rng.random() < 0.5 else g.join(j, base, pred)
+        observed.append(cur)
+        if rng.random() < 0.6:
+            other_eng = rng.choice([x for x in ["e0", "e1", "e2"] if x != g.eng[cur]])
+            cur = g.transfer(cur, other_eng)
+            observed.append(cur)
+        if rng.random() < 0.5:
+            cur = g.mat(cur)
+            observed.append(cur)
+        if g.cols[cur] and rng.random() < 0.4:
+            op, nc = g.rand_op(g.cols[cur], allow=("sel", "dedup"))
+            observed.append(g.apply(cur, op, nc))
+    for r in observed:
+        p = "p" + r[1:]
+        g.emit(["process", p, r])
+        g.emit(["exec", p])
+        g.emit(["sqlexec", p])
+        g.emit(["sem", r])
+    return g
+
+
 def prog_history(seed: int, n_ops: int = 6, n_events: int = 10) -> G:
     """Histories of attach / execute / process over trees that share materialization nodes (C10)."""
     g = G(seed, max_rows=4)
@@ -1323,6 +1380,22 @@ def prog_illformed(seed: int, n_ops: int = 5) -> G:
             e = ["fn", "o:special", other, ["ref", rng.choice(sorted(cols))]]
             opts = g.opts(rng.choice(["-", g.eng[t]]), rng.random() < 0.5, rng.random() < 0.5, rng.random() < 0.5)
             sub = rng.choice(["calc", "sel", "sort", "join", "join"])
+            if rng.random() < 0.35:
+                # the SAME-LOOKING expression without the engine restriction was applied (and accepted) in this
+                # engine just before: support must be judged on the expression at hand, not on an equal-looking one
+                c0 = rng.choice(sorted(cols))
+                free = ["fn", "neg", "*", ["ref", c0]]
+                e = ["fn", "neg", other, ["ref", c0]]
+                sub = rng.choice(["sort", "sort", "sel", "calc"])
+                tagc0 = [x for x in NEW_TAGS if x not in cols]
+                if sub == "sort":
+                    t = g.apply(t, ["sort", ["term", free, "asc"]], cols)
+                    if rng.random() < 0.5:
+                        t = g.apply(t, ["slice", "-", 2, "-"], cols)
+                elif sub == "sel":
+                    g.apply(t, ["sel", ["pfn", "lt", "*", free, ["lit", 1]]], cols)
+                elif tagc0:
+                    g.apply(t, ["calc", tagc0[-1], free], cols | {tagc0[-1]})
             tagc = [x for x in NEW_TAGS if x not in cols]
             # a join (inside ONE engine) whose predicate that engine does not support
             partners = [u for u in pool if g.eng[u] == g.eng[t] and not (g.cols[u] & cols & NONKEY)]
